@@ -25,7 +25,7 @@ class BUnit:
 
     def install_shim(self):
         ns = self.ns
-        for k in ("Q", "D", "Vec", "Row", "Mat", "cos", "sin", "sqrt", "square", "cube", "dot", "cross", "crossMat", "eye", "val", "der", "sign", "clamp"):
+        for k in ("Q", "D", "Vec", "Row", "Mat", "cos", "sin", "sqrt", "square", "cube", "dot", "cross", "crossMat", "eye", "val", "der", "sign", "clamp", "atan2_"):
             ns[k] = getattr(S, k)
         def vec_ctor(n):
             def f(*a):
